@@ -313,19 +313,21 @@ namespace
         else if (less(last, memory))
             // insert at the end
             return {last, end_node};
-        else if (less(last_dealloc_prev, memory) && less(memory, last_dealloc))
+
+        // the cached position can be a proxy node, whose address says nothing about the order:
+        // the begin proxy is before and the end proxy after every node
+        auto after_prev  = last_dealloc_prev == begin_node || less(last_dealloc_prev, memory);
+        auto before_last = last_dealloc == end_node || less(memory, last_dealloc);
+        if (after_prev && before_last)
             // insert before last_dealloc
             return {last_dealloc_prev, last_dealloc};
-        else if (less(memory, last_dealloc))
+        else if (before_last)
             // insert into [first, last_dealloc_prev]
             return find_pos_interval(info, memory, begin_node, first, last_dealloc_prev,
                                      last_dealloc);
-        else if (greater(memory, last_dealloc))
-            // insert into (last_dealloc, last]
+        else
+            // insert into [last_dealloc, last]
             return find_pos_interval(info, memory, last_dealloc_prev, last_dealloc, last, end_node);
-
-        FOONATHAN_MEMORY_UNREACHABLE("memory must be in some half or outside");
-        return {nullptr, nullptr};
     }
 } // namespace
 
